@@ -61,6 +61,35 @@ func (p *ptrExec) Exec(line string) (obs, viol string) {
 		// pnew <slot> <cache 0|1>: `new`, and the model switches its object-level part on
 		line = "new " + t[1]
 		t = strings.Fields(line)
+	case "plinks":
+		// plinks <old> <new>: DiffLinks between two live trees; the link events (a name, or *obj for
+		// an in-memory node object) are compared with the object-level model through `last`
+		var o, n int
+		fmt.Sscan(t[1], &o)
+		fmt.Sscan(t[2], &n)
+		old, nw := p.Trees[o], p.Trees[n]
+		if old == nil || nw == nil {
+			return "bad-op", ""
+		}
+		var evs []string
+		err := nw.DiffLinks(p.ctx, old, func(rem bool, link interface{}) (bool, error) {
+			name, ok := link.(string)
+			if !ok {
+				name = "*obj"
+			}
+			if rem {
+				evs = append(evs, "-"+name)
+			} else {
+				evs = append(evs, "+"+name)
+			}
+			return true, nil
+		})
+		if err != nil {
+			p.last = "err"
+			return "bad-op", "DiffLinks failed on a healthy store: " + err.Error()
+		}
+		p.last = "ok:" + strings.Join(evs, ",")
+		return "bad-op", ""
 	case "pgraph":
 		return p.pgraph(), ""
 	case "ptick":
@@ -376,7 +405,9 @@ func genPtrCase(r *rand.Rand, cfg Cfg) Case {
 		case x < 70:
 			ops = append(ops, fmt.Sprintf("get %d %d", s, pick(r, uni)))
 		case x < 73:
-			if len(slots) > 1 && r.Intn(3) == 0 {
+			if len(slots) > 1 && r.Intn(4) == 0 {
+				ops = append(ops, fmt.Sprintf("plinks %d %d", pick(r, slots), s))
+			} else if len(slots) > 1 && r.Intn(3) == 0 {
 				// DiffIter between two live trees (clones, reloads, modified copies: any sharing of
 				// node objects between them)
 				o := pick(r, slots)
